@@ -11,7 +11,7 @@ from sa import ordenum
 from sa.effects import Effects
 from sa.kern import cell, eval_kernel
 from sa.report import Ctx
-from sa.srcmodel import ClassInfo, FuncInfo, Module, dotted_name
+from sa.srcmodel import ClassInfo, FuncInfo
 from sa.symterm import Poly, Unsupported, all_atoms, show
 
 CTRL_MOD = "moptipyapps.dynamic_control.controller"
@@ -707,7 +707,18 @@ def _system_outputs(repo: Any, kern: FuncInfo) -> list[Any]:
 # ------------------------------------------------------------------ D16.0b
 def _dispatch(ctx: Ctx, sites: list[Site]) -> None:
     """A controller for k state dimensions is handed out exactly to systems
-    with k state dimensions (and the control dimension it was built for)."""
+    with k state dimensions (and the control dimension it was built for).
+
+    Decided on the paths through the factory (locals inlined): the guards
+    of every path that returns a controller must entail state_dims == k and
+    control_dims == c for the k, c the controller was built with - whether
+    the factory raises early, nests its branches or uses hoisted locals."""
+    from sa.casesplit import equivalent
+    from sa.kern import make_evaluator, py_calls
+    from sa.pathinline import paths
+    from sa.srcmodel import func_body
+    from sa.symterm import (Env, Poly, Unsupported, _eq, c_and, c_not,
+                            show_cond)
     repo = ctx.repo
     by_factory: dict[FuncInfo, list[Site]] = {}
     for s in sites:
@@ -717,47 +728,64 @@ def _dispatch(ctx: Ctx, sites: list[Site]) -> None:
         if not fac.params:
             continue
         sysn = fac.params[0]
+        ev = make_evaluator(repo, fac, extra_call=py_calls)
+        SD = Poly.var(f"{sysn}.state_dims")
+        CD = Poly.var(f"{sysn}.control_dims")
+        try:
+            ps = paths(func_body(fac))
+        except ValueError:
+            ps = []
+        where: dict[tuple[int, int], list[Any]] = {}
+        for q in ps:
+            for e in q.events:
+                if e.kind in ("return", "expr") and e.value is not None:
+                    for x in ast.walk(e.value):
+                        if isinstance(x, ast.Call):
+                            where.setdefault((x.lineno, x.col_offset),
+                                             []).append(q)
         for s in ss:
-            if not isinstance(s.sd, int):
+            qs = where.get((s.call.lineno, s.call.col_offset), [])
+            if not qs:
                 continue
-            # the innermost `if` around the construction
-            par = None
-            for node in ast.walk(fac.node):
-                if isinstance(node, ast.If) and any(
-                        s.call is x for st in node.body
-                        for x in ast.walk(st)):
-                    par = node
-            if par is None:
-                continue
-            t = par.test
-            if not (isinstance(t, ast.Compare) and len(t.ops) == 1 and
-                    ast.unparse(t.left) == f"{sysn}.state_dims"):
-                continue
-            n += 1
-            k = repo.const(fac.module, t.comparators[0])
-            ok = isinstance(t.ops[0], ast.Eq) and k == s.sd
-            ctx.ob("D16.0", fac, par, ok,
-                   f"{fac.name}: the {s.sd}-dimensional controller is "
-                   f"returned for systems with state_dims == {s.sd}" if ok
-                   else f"{fac.name}: a controller reading {s.sd} state "
-                   f"dimensions is returned under `{ast.unparse(t)}`",
-                   construct=f"{fac.name} dispatch {s.sd}d")
-        guards = [node for node in ast.walk(fac.node) if isinstance(
-            node, ast.If) and node.body and isinstance(
-            node.body[-1], ast.Raise) and isinstance(
-            node.test, ast.Compare) and ast.unparse(
-            node.test.left) == f"{sysn}.control_dims"]
-        cds = {s.cd for s in ss if isinstance(s.cd, int)}
-        if guards and len(cds) == 1:
-            n += 1
-            t = guards[0].test
-            k = repo.const(fac.module, t.comparators[0])
-            ok = isinstance(t.ops[0], ast.NotEq) and k == next(iter(cds))
-            ctx.ob("D16.0", fac, guards[0], ok,
-                   f"{fac.name}: systems with another control dimension "
-                   f"than {next(iter(cds))} are rejected" if ok else
-                   f"{fac.name}: controllers with {next(iter(cds))} "
-                   f"output(s) are built although the guard is "
-                   f"`{ast.unparse(t)}`",
-                   construct=f"{fac.name} control dimension guard")
+            for what, var, want in (("state", SD, s.sd), ("control", CD,
+                                                          s.cd)):
+                if not isinstance(want, int):
+                    continue
+                ok = True
+                shown = ""
+                mentions = False
+                for q in qs:
+                    cs = []
+                    for tst, truth in q.guards:
+                        try:
+                            c = ev.cond(Env(), tst)
+                        except Unsupported:
+                            continue
+                        cs.append(c if truth else c_not(c))
+                    pc = c_and(*cs) if cs else ("true",)
+                    shown = show_cond(pc)[:100]
+                    from sa.symterm import all_atoms
+                    if var.as_atom() in all_atoms(pc):
+                        mentions = True
+                    # path => var == want
+                    if not equivalent(c_and(pc, c_not(_eq(
+                            var, Poly.const(want)))), ("false",))[0]:
+                        ok = False
+                if what == "control" and not mentions:
+                    continue       # factories for any control dimension
+                n += 1
+                ctx.ob("D16.0", fac, s.call, ok,
+                       f"{fac.name}: the controller built for {want} "
+                       f"{what} dimension(s) is only handed out when "
+                       f"{what}_dims == {want}" if ok else
+                       f"{fac.name}: a controller for {want} {what} "
+                       f"dimension(s) is returned under [{shown}]: "
+                       + ("controllers with " + str(want) + " output(s) are "
+                          "built although the guard does not require it"
+                          if what == "control" else "a controller reading "
+                          f"{want} state dimensions is returned for other "
+                          "systems"),
+                       construct=f"{fac.name} dispatch {what} "
+                                 f"{s.name if hasattr(s, 'name') else ''}"
+                                 f"@{s.call.lineno}")
     ctx.count("dispatch_guards", n)
